@@ -18,6 +18,10 @@ THEOREMS = [
     "C06_lookup_uses_current_chain", "C06_lookupAll_uses_current_chain", "C06_subscriptions_uses_current_chain",
     "C06_change_empties_caches_below", "C06_answers_after_change",
     "C06_push_change_empties_caches", "C06_verifying_verify_empties_cache",
+    "C06_homogeneous_histories_are_mixed", "C06_mixed_ro_coherent", "C06_mixed_discipline",
+    "C06_mixed_current_chain_is_reachable_set", "C06_mixed_lookup_uses_current_chain",
+    "C06_mixed_lookupAll_uses_current_chain", "C06_mixed_subscriptions_uses_current_chain",
+    "C06_mixed_change_empties_caches_below", "C06_mixed_answers_after_change",
     "C06_generations_strictly_increase",
     "C06_generated_refresh_loop_exits_first_round", "C06_generated_refresh_ro_eq_model",
     "C06_generated_lookup_changed_eq_model", "C06_generated_changed_eq_model",
@@ -27,7 +31,7 @@ THEOREMS = [
 SOURCE = os.path.join(C.REPO, "src", "zope", "interface", "adapter.py")
 GEN_FILE = os.path.join(C.COQ, "Gen", "RegChainKernel.v")
 SHARD = 10
-RULE = ("registry DAGs of 3-6 registries of one flavour (chains of 3-5 with one or two alternative tops, diamonds, "
+RULE = ("registry DAGs of 3-6 registries, of one flavour or MIXED (push tops/middles with verifying registries below them) (chains of 3-5 with one or two alternative tops, diamonds, "
         "diamonds with a tail, redundant-edge DAGs site(local, glob) with local(glob) whose indirect path is cut before "
         "glob changes), created in topological order; sweeps visit the registries top-first, bottom-first or shuffled, "
         "plus leaf-only sweeps right after a change (verifying registries in between have not looked yet); the same adapter keys / subscription keys are "
@@ -60,7 +64,8 @@ TRUSTED_BASE = [
 ]
 ASSUMPTIONS = [
     "registry graphs are acyclic: __bases__ only ever names registries created earlier (the real code recurses "
-    "forever on a cycle); one flavour per graph",
+    "forever on a cycle); a push registry only has push bases (AttributeError in the real code otherwise), a "
+    "verifying registry bases of either flavour",
     "rebuild() replays registrations in storage order (nested dictionaries in the code, flat insertion order in "
     "Model/Adapter.v): histories with rebuild() use one provided interface per case, so no lookup depends on that order",
     "the specification graph is static during a history (C02/C05's subject)",
@@ -165,7 +170,14 @@ def gen_chain_case(rng, fl, rebuild=False):
     look_pool = list(ifaces) + list(classes)
     dag = gen_dag(rng)
     n = len(dag)
-    ops = [["newreg", fl, bs] for bs in dag]
+    if fl == "mixed":
+        # push registries first (tops / middles), verifying ones below them: a push registry only ever gets
+        # push bases (bases have smaller numbers), a verifying one bases of either flavour
+        cut = rng.randrange(1, n)
+        flv = ["push" if i < cut else "verifying" for i in range(n)]
+    else:
+        flv = [fl] * n
+    ops = [["newreg", flv[i], bs] for i, bs in enumerate(dag)]
 
     def desc(x):
         return rng.choice([d for d in rel.descendants(0 if x is None else x) if d in look_pool] or look_pool)
@@ -441,10 +453,14 @@ def generate(run, tier):
     rng = run.rng("gen")
     big = tier != "quick"
     cases = []
-    for i in range(48 if not big else 500):
+    for i in range(40 if not big else 440):
         cases.append(gen_chain_case(rng, "push" if i % 2 == 0 else "verifying"))
     for i in range(20 if not big else 200):
         cases.append(gen_chain_case(rng, "push" if i % 2 == 0 else "verifying", rebuild=True))
+    # mixed graphs: verifying registries over push middles / tops (re-basing at every level, rebuild of push
+    # bases in a third of them)
+    for i in range(24 if not big else 240):
+        cases.append(gen_chain_case(rng, "mixed", rebuild=(i % 3 == 2)))
     # a share of the registry-stream cases runs on registry SUBCLASSES whose instances are falsy (__len__ =
     # number of own registrations, or __bool__ = False): nothing in the chain logic may depend on truthiness
     for i, c in enumerate(cases):
@@ -452,7 +468,7 @@ def generate(run, tier):
             c["regclass"] = rng.choice(["len", "len", "false"])
             if c["regclass"] == "len" and rng.random() < 0.7:
                 _empty_some(rng, c)
-    for _ in range(36 if not big else 380):
+    for _ in range(30 if not big else 340):
         cases.append(gen_random_case(rng))
     for _ in range(20 if not big else 200):
         cases.append(gen_comp_case(rng))
@@ -469,6 +485,11 @@ def coq_case(case, obs, mode):
     c = dict(case)
     c["ops"] = _ops(case, obs)
     return "(%s, %s)" % (C.cbool(case.get("stream") != "comp"), RC.coq_hist_case(c, obs))
+
+
+def _flavour(ops):
+    fls = {op[1] for op in ops if op[0] == "newreg"}
+    return "mixed" if len(fls) > 1 else (sorted(fls)[0] if fls else "?")
 
 
 def _changed_across_rebase(case, obs):
@@ -495,18 +516,18 @@ def classify(case, obs):
     if not changed:
         return None
     ops = _ops(case, obs)
-    return (case.get("stream"), ops[0][1], sum(1 for op in ops if op[0] == "newreg"), rebases, min(changed, 12))
+    return (case.get("stream"), _flavour(ops), sum(1 for op in ops if op[0] == "newreg"), rebases, min(changed, 12))
 
 
 def kind(case, obs):
     ops = _ops(case, obs) if "answers" in obs else case.get("ops", [["?", "?"]])
-    return "%s/%s%s" % (case.get("stream"), ops[0][1] if ops else "?",
+    return "%s/%s%s" % (case.get("stream"), _flavour(ops),
                         "/falsy-" + case["regclass"] if case.get("regclass") else "")
 
 
 def finding_key(case, obs, mode):
     ops = _ops(case, obs)
-    return "stale-chain:%s:%s" % (case.get("stream"), ops[0][1])
+    return "stale-chain:%s:%s" % (case.get("stream"), _flavour(ops))
 
 
 def _spec_expr(i, specs):
@@ -600,10 +621,11 @@ TECHNIQUE = ("Coq proof by induction over registry histories of a Gallina transc
              "translator on every run (invariants: sub-registry lists mirror __bases__; generation snapshots never run ahead "
              "and a matching snapshot implies a current order; frame, totality and membership lemmas for the C3 "
              "resolver); vm_compute correspondence with both implementations and an independent replay oracle in Coq")
-LEVEL_TEXT = ("Machine-checked theorems (Properties/C06.v, 21 theorems, closed under the global context; 8 of them state "
+LEVEL_TEXT = ("Machine-checked theorems (Properties/C06.v, 30 theorems, closed under the global context; 8 of them state "
               "that the functions regenerated from adapter.py's current text equal the model's for all states): for every "
               "history of registry creation, __bases__ reassignment at any level, registrations and subscriptions in any "
-              "member, rebuild() and lookups, over any specification world and any factory behaviour, (push) the cached resolution "
+              "member, rebuild() and lookups, over homogeneous AND mixed registry graphs (verifying registries over push bases), "
+              "any specification world and any factory behaviour, (push) the cached resolution "
               "order of every registry equals the C3 order of the current base graph, (verifying) it does once _verify "
               "has run, the order lists exactly the registries reachable through the current __bases__, and lookup / "
               "lookupAll / subscriptions answer with the uncached computation over that chain on every cache miss and "
@@ -614,4 +636,4 @@ LEVEL_TEXT = ("Machine-checked theorems (Properties/C06.v, 21 theorems, closed u
 LEVEL_NOTE = ("Trusted: Coq kernel/vm_compute; the hand-written model (validated by the correspondence); C3-ness of "
               "Model.Ro.ro is C03's theorem, not restated here; warm-cache transparency in general (entries cached "
               "before an unrelated change) is C05's subject - C06 proves cache emptiness after changes above and "
-              "correctness on misses.  Registry cycles and mixed flavours are outside the quantifier (documented).")
+              "correctness on misses.  Registry cycles and push registries over verifying bases (AttributeError in the code) are outside the quantifier (documented).")
